@@ -90,6 +90,9 @@ def run_unit(unit):
         return run_hist(unit)
     if unit[0] == "reduce":
         return run_reduce(unit)
+    if unit[0] == "gextra":
+        from mc import groupextra
+        return groupextra.run_extra_unit(unit, METHOD)
     kind, nkeys, n, first, level = unit
     agg = Agg()
     h = hashlib.sha256()
@@ -262,6 +265,7 @@ def check(ctx):
     if not ctx.thorough:
         units += [("hist", "str", "name", METHOD, 3, "fresh", p) for p in ("cell", "view", "replace", "cell2", "view2")]
     units += [("reduce", a, ctx.pick(4, 5)) for a in ("int", "float", "neg")] + [("reduce", a, 4) for a in ("big", "bigf")]
+    units += [("gextra", f) for f in ("grid", "floats")]
     agg = hashseeds.run(ctx, "props.c12", units)
     agg.notes["bound"] = "rows<=4 (1 key) / <=3 (2 keys) quick; <=5 / <=4 / <=2 (3 keys) thorough"
     agg.notes["exhaustive"] = True
@@ -275,6 +279,10 @@ def coverage_goals(ctx, agg):
 def replay(rec):
     case = rec.get("case") or {}
     agg = Agg()
+    if case.get("family") in ("grid of composite keys", "float accumulation"):
+        from mc import groupextra
+        fam = "grid" if case["family"].startswith("grid") else "floats"
+        return set(groupextra.run_extra_unit(("gextra", fam), METHOD).viol)
     if "hist" in case:
         col, idx, new, path = case["hist"]
         hist_one(agg, case["kind"], case["form"], case["method"], [tuple(k) for k in case["keys"]], case["values"], col, idx, new, path)
